@@ -9,6 +9,7 @@ import SpoxModel.Generated.BuildFrontIR
 import SpoxModel.Model.FrontFacts
 import SpoxModel.Generated.FrontFacts
 import SpoxModel.Lemmas.FrontSpec
+import SpoxModel.Lemmas.FrontGrow
 /-!
 # C12 — build and inline are pure, repeatable and independent of process history
 
@@ -195,6 +196,33 @@ example :
        ⟨⟨true, false, "1:[]", [2], []⟩ :: exP, List.reverse, id, ⟨[⟨"p", 1⟩, ⟨"q", 0⟩], [⟨"z", 3⟩], true⟩⟩,
        ⟨exP, id, id, exReq⟩] (fun _ => none)).2.map inputsOf
       = [none, some [⟨"p", "1:[]"⟩, ⟨"q", "7:[]"⟩], some [⟨"a", "7:[]"⟩, ⟨"b", "1:[]"⟩]] := by decide
+
+/-- **Regardless of what was constructed afterwards.** Objects newer than everything the request
+    mentions (`Q`, any number, of any kind: values, arguments, nodes with subgraphs that use the old
+    Vars) do not influence the build: same names afterwards, same result — model or error class — for
+    every set order, flag and store. (`WF`: every reference points to an older object — true of every
+    Python program; the driver evaluates it as `wfb` on every program, `Front.wfb_iff`.) Together with
+    `history_independent`, whose steps each carry their own program: a build depends on the Vars it is
+    given and what they were made from — not on what else the process constructed or built, before or after. -/
+theorem build_ignores_newer_objects (Q P : List Obj) (hwf : WF (Q ++ P)) (π : List Nat → List Nat)
+    (hπ : ∀ l, (π l).Perm l) (fixed : Bool) (req : Request) (s : Store)
+    (hin : ∀ e ∈ req.inputs, e.obj < P.length) (hout : ∀ e ∈ req.outputs, e.obj < P.length) :
+    build Generated.RenamesIR.ir (Q ++ P) π fixed req s = build Generated.RenamesIR.ir P π fixed req s := by
+  induction Q with
+  | nil => rfl
+  | cons o Q ih =>
+    have hwf' : WF (Q ++ P) := hwf.2.2
+    rw [List.cons_append, build_cons _ o (Q ++ P) hwf' π hπ fixed req s
+      (fun e he => by have := hin e he; simp only [List.length_append]; omega)
+      (fun e he => by have := hout e he; simp only [List.length_append]; omega)]
+    exact ih hwf'
+
+/-- Non-vacuity: two newer objects (a value using `y`, and an argument) in front of the witness program. -/
+example :
+    inputsOf (build Generated.RenamesIR.ir
+      ([⟨true, true, "9:[]", [], []⟩, ⟨true, false, "1:[]", [2, 0], []⟩] ++ exP) List.reverse true exReq (fun _ => none)).2
+      = some [⟨"a", "7:[]"⟩, ⟨"b", "1:[]"⟩] ∧
+    wfb ([⟨true, true, "9:[]", [], []⟩, ⟨true, false, "1:[]", [2, 0], []⟩] ++ exP) = true := by decide
 
 /-! ## Purity: the statements of spox that write to lasting state (table extracted from /repo) -/
 
